@@ -27,6 +27,7 @@ META = {
   "constant-time behaviour (C08)",
  ],
  "mutants_tried": [
+  "CAUGHT (genuine defect of /repo, found by this check, since fixed by c060fa7) rsa_oaep_pad.c stripping trailing instead of leading zero bytes of pk->n -> oaep-pad-leadzero-K24, oaep-pad-K16-L1-Z2 against the pre-fix tree",
   "CAUGHT rsa_pkcs1_sig_unpad.c: pad1[] with seven 0xFF bytes (accepts a 7-byte FF run) -> p1unpad-sha1-SL45, -SL43",
   "CAUGHT rsa_pkcs1_sig_unpad.c: DigestInfo form without NULL parameters no longer accepted -> p1unpad-sha256-SL60/61/62/67",
   "CAUGHT rsa_oaep_unpad.c: zlen >= hlen relaxed by one (last lHash byte unchecked) -> oaep-unpad-K16-L1",
